@@ -64,6 +64,20 @@ def r2(ctx, ts):
     R = "C03-R2"
     ctx.rule(R, "in Link::enqueue the push onto Link::sent is reached only with the direction's state in {Healthy, Hold}; "
                 "the state value comes from get_state_for_message(src.ip(), dst.ip())")
+    # single writer: nothing is put in flight except through the function that consults the direction's state
+    PUSH = re.compile(r"^std::collections::VecDeque::(push_back|push_front|insert|extend|append)$|VecDeque as std::iter::Extend")
+    for ob in sorted(ctx.w.bodies.values(), key=lambda x: x.id):
+        if ob.crate != "turmoil":
+            continue
+        for bb, t in ob.calls(PUSH):
+            if t["args"] and _on_field(ob, t["args"][0], "turmoil::top::Link::sent"):
+                root = ob
+                while root.parent and root.parent in ctx.w.bodies:
+                    root = ctx.w.bodies[root.parent]
+                ok = root.id == "turmoil::top::Link::enqueue"
+                ctx.inst(R, f"sent<-{root.id}", ok, t["s"], "messages are put in flight by Link::enqueue only" if ok else
+                         f"`{root.id}` pushes onto Link::sent itself, past the state test of Link::enqueue: the message (a RST answer, a reply) is scheduled for delivery "
+                         "whatever the state of its direction - it crosses a partition and leaves a held link during the hold")
     b = ctx.body(R, "turmoil::top::Link::enqueue")
     if not b:
         return
@@ -148,9 +162,23 @@ def r3(ctx, ts):
                     v = o["r"].get("variant")
             if v == EP:
                 wr.append((bb, i, s, c))
+        pb = [bb for bb, t in b.calls(purge) if _on_field(b, t["args"][0], "turmoil::top::Link::sent")]
+        if pb and not wr:
+            # the converse: what is in flight is dropped only by a partition. A purge in a function that partitions nothing (repair,
+            # release, tick) loses messages on a link that is healthy afterwards
+            parts = False
+            for bb, i, s in b.all_stmts():
+                c = ts.cell_of(s["p"])
+                r = s["r"]
+                v = r.get("variant") if r["k"] == "agg" else (origin(b, r["o"])["r"].get("variant") if r["k"] == "use" and origin(b, r["o"])["k"] == "agg" else None)
+                if c and v in (EP, "RandPartition"):
+                    parts = True
+            site = b.term(pb[0])["s"]
+            ctx.inst(R, f"{b.id}:purge-only-when-partitioning", parts, site, "the purge belongs to a partition" if parts else
+                     f"`{b.id}` purges Link::sent although it partitions no direction: messages in flight on a link that stays (or becomes) healthy are lost - "
+                     "a repair / release issued while a message is under way drops it")
         if not wr:
             continue
-        pb = [bb for bb, t in b.calls(purge) if _on_field(b, t["args"][0], "turmoil::top::Link::sent")]
         cnt = {}
         for bb, i, s, c in wr:
             n += 1
